@@ -1723,7 +1723,34 @@ impl Server {
             None // Unsubscribe from all
         };
         
+        let named_channels = channels.clone();
         let results = self.pubsub.unsubscribe(conn_id, channels)?;
+        
+        // Nothing was subscribed: the request is still acknowledged, once per named
+        // channel, or once with a nil channel for "all"
+        if results.is_empty() {
+            let remaining = self.pubsub.get_subscription_info(conn_id)
+                .map_or(0, |info| info.channels.len() + info.patterns.len());
+            self.connections.with_connection(conn_id, |conn| -> Result<()> {
+                match &named_channels {
+                    Some(chans) => {
+                        for ch in chans {
+                            conn.send_frame(&format_unsubscribe_response(ch, remaining))?;
+                        }
+                    }
+                    None => {
+                        conn.send_frame(&RespFrame::Array(Some(vec![
+                            RespFrame::from_string("unsubscribe"),
+                            RespFrame::null_bulk(),
+                            RespFrame::Integer(remaining as i64),
+                        ])))?;
+                    }
+                }
+                conn.flush()?;
+                Ok(())
+            });
+            return Ok(RespFrame::NoResponse);
+        }
         
         // Send each unsubscription confirmation atomically
         self.connections.with_connection(conn_id, |conn| -> Result<()> {
@@ -1793,7 +1820,34 @@ impl Server {
             None // Unsubscribe from all patterns
         };
         
+        let named_patterns = patterns.clone();
         let results = self.pubsub.punsubscribe(conn_id, patterns)?;
+        
+        // Nothing was subscribed: the request is still acknowledged, once per named
+        // pattern, or once with a nil pattern for "all"
+        if results.is_empty() {
+            let remaining = self.pubsub.get_subscription_info(conn_id)
+                .map_or(0, |info| info.channels.len() + info.patterns.len());
+            self.connections.with_connection(conn_id, |conn| -> Result<()> {
+                match &named_patterns {
+                    Some(pats) => {
+                        for pat in pats {
+                            conn.send_frame(&format_punsubscribe_response(pat, remaining))?;
+                        }
+                    }
+                    None => {
+                        conn.send_frame(&RespFrame::Array(Some(vec![
+                            RespFrame::from_string("punsubscribe"),
+                            RespFrame::null_bulk(),
+                            RespFrame::Integer(remaining as i64),
+                        ])))?;
+                    }
+                }
+                conn.flush()?;
+                Ok(())
+            });
+            return Ok(RespFrame::NoResponse);
+        }
         
         // Send each unsubscription confirmation atomically
         self.connections.with_connection(conn_id, |conn| -> Result<()> {
